@@ -49,6 +49,11 @@ def main():
     t0 = time.time()
     try:
         cmod = importlib.import_module(f"contracts.{prop}")
+        # units on functions that several properties depend on are registered under each of them: done here, after the module
+        # is fully imported, so that contract modules can refer to each other without import cycles
+        for _name in sorted(dir(cmod)):
+            if _name.startswith("_register_shared") and callable(getattr(cmod, _name)):
+                getattr(cmod, _name)()
     except ModuleNotFoundError as e:
         print(f"CHECKER-ERROR no contracts for {prop}: {e}")
         return 3
